@@ -74,6 +74,10 @@ type Runner struct {
 	ReplayFn  func(v *Viol) (reproduced bool, detail string)
 	distinct  sync.Map
 	distinctN atomic.Int64
+	// MaxWorkers limits the parallelism of following sweeps (0 = all workers).
+	MaxWorkers int
+	// HangLimit is the watchdog threshold in seconds for following sweeps (0 = HangSeconds).
+	HangLimit atomic.Int64
 }
 
 const slotSize = 4096
@@ -264,7 +268,10 @@ func (r *Runner) Sweep(name string, n int64, fn func(w *Worker, i int64)) {
 	var next atomic.Int64
 	var completed atomic.Int64
 	var wg sync.WaitGroup
-	for _, w := range r.workers {
+	for wi, w := range r.workers {
+		if r.MaxWorkers > 0 && wi >= r.MaxWorkers {
+			break
+		}
 		wg.Add(1)
 		go func(w *Worker) {
 			defer wg.Done()
@@ -329,7 +336,11 @@ func (r *Runner) watchdog() {
 		now := time.Now().UnixNano()
 		for _, w := range r.workers {
 			st := w.curStart.Load()
-			if st != 0 && now-st > int64(HangSeconds)*int64(time.Second) {
+			limit := r.HangLimit.Load()
+			if limit == 0 {
+				limit = HangSeconds
+			}
+			if st != 0 && now-st > limit*int64(time.Second) {
 				w.curMu.Lock()
 				src := w.cur
 				w.curMu.Unlock()
@@ -338,7 +349,7 @@ func (r *Runner) watchdog() {
 					continue
 				}
 				v := Viol{Property: r.Property, Check: w.check, Sig: "hang", Source: src,
-					Detail: fmt.Sprintf("case did not finish within %d s", HangSeconds)}
+					Detail: fmt.Sprintf("case did not finish within %d s", limit)}
 				r.mu.Lock()
 				r.viols = append(r.viols, v)
 				r.sigCount["hang"]++
